@@ -1,0 +1,20 @@
+//go:build verif
+
+// Package verifspec holds the executable specification vocabulary used by the
+// contract files (*_verif.go). It is compiled only with -tags verif.
+package verifspec
+
+// BE16 is the big-endian 16-bit word at b[i:i+2].
+func BE16(b []byte, i int) uint16 {
+	return uint16(b[i])<<8 | uint16(b[i+1])
+}
+
+// BE32 is the big-endian 32-bit word at b[i:i+4].
+func BE32(b []byte, i int) uint32 {
+	return uint32(b[i])<<24 | uint32(b[i+1])<<16 | uint32(b[i+2])<<8 | uint32(b[i+3])
+}
+
+// BE64 is the big-endian 64-bit word at b[i:i+8].
+func BE64(b []byte, i int) uint64 {
+	return uint64(BE32(b, i))<<32 | uint64(BE32(b, i+4))
+}
